@@ -34,7 +34,7 @@ ASSUMPTIONS = [
     'left behind by a failed script is not specified)',
 ]
 NSH = 16
-NPROG = {'quick': 128_000, 'thorough': 1_000_000}
+NPROG = {'quick': 128_000, 'thorough': 4_000_000}
 NOW = 1_700_000_000
 FLOOR = {'quick': 30, 'thorough': 50}
 NOT_FLOORED = {'OP_SET_FLAG', 'OP_UNSET_FLAG'}
